@@ -89,10 +89,11 @@ func InitTimeoutParamsFromConfig(conf *viper.Viper) *TimeoutParams {
 // Errors
 
 var (
-	ErrInvalidProposalSignature = errors.New("Error invalid proposal signature")
-	ErrInvalidProposalPOLRound  = errors.New("Error invalid proposal POL round")
-	ErrAddingVote               = errors.New("Error adding vote")
-	ErrVoteHeightMismatch       = errors.New("Error vote height mismatch")
+	ErrInvalidProposalSignature   = errors.New("Error invalid proposal signature")
+	ErrInvalidProposalPOLRound    = errors.New("Error invalid proposal POL round")
+	ErrInvalidProposalPartsHeader = errors.New("Error invalid proposal block parts header")
+	ErrAddingVote                 = errors.New("Error adding vote")
+	ErrVoteHeightMismatch         = errors.New("Error vote height mismatch")
 )
 
 //-----------------------------------------------------------------------------
@@ -1366,6 +1367,11 @@ func (cs *ConsensusState) defaultSetProposal(proposal *types.Proposal) error {
 	// We don't care about the proposal if we're already in RoundStepCommit.
 	if RoundStepCommit <= cs.Step {
 		return nil
+	}
+
+	// A block of at most MaxBlockSize bytes has between 1 and MaxBlockSize parts.
+	if proposal.BlockPartsHeader.Total <= 0 || proposal.BlockPartsHeader.Total > types.MaxBlockSize {
+		return ErrInvalidProposalPartsHeader
 	}
 
 	// Verify POLRound, which must be -1 or between 0 and proposal.Round exclusive.
